@@ -672,6 +672,12 @@ def late_loss_unit(M):
                 return ex.observe("set-up did not fail")
             cls = getattr(X, out, None)
             ends = isinstance(cls, type) and issubclass(cls, X.AuthenticationError)
+            if ends:
+                ex.require(r[1] == out, "an authentication failure ends the connector with that error")
+            elif out == "CancelledError":
+                ex.require(r[1] == "CancelledError", "a cancellation ends the connector")
+            else:
+                ex.require(r[1] == "failed attempt, connector sleeps", "every other failed attempt is followed by the back-off sleep, the connector does not end (%s)" % out)
             # _reconnect re-raises AuthenticationError (the connector task is finished), everything else is retried by it
             conn._connector = c11.FakeTask("finished-auth-error" if ends else "running")
             before = len(env.tasks)
@@ -768,6 +774,72 @@ def description_update_unit(M, P):
     return h
 
 
+# ------------------------------------------------------------------ (j) zeroconf records reach the pairing
+def browser_unit(M):
+    """a record for the pairing's id reaches the pairing (which then hastens the reconnect) however it arrives: directly, through
+    the browser callback and its 0.5 s resolve timer, or after a goodbye that fell into the resolve delay"""
+    from . import c19w
+
+    def h(ex):
+        W = c19w.MdnsWorld(M, True)
+        try:
+            W.route = ex.choice("record_arrives_via", ["direct", "browser", "browser-after-goodbye"])
+            first = ex.choice("before", ["nothing", "a-malformed-record", "an-earlier-record"])
+            if first == "a-malformed-record":
+                W.advertise(c19w.ID_A, malformed=True)
+            elif first == "an-earlier-record":
+                W.advertise(c19w.ID_A)
+            pairing = W.ctl.pairings[c19w.ID_A]
+            before = len(pairing.updates)
+            W.advertise(c19w.ID_A)
+            ex.require(len(pairing.updates) == before + 1, "a valid record for the pairing's id is handed to the pairing (route: %s, before: %s)" % (W.route, first))
+            ex.require(not W.ctl._resolve_later, "no service name is left in the resolve table once its record has been processed")
+        finally:
+            W.close()
+        return ex.observe("ok")
+    return h
+
+
+# ------------------------------------------------------------------ (i) shutdown
+def shutdown_unit(M, P):
+    """AbstractPairing.shutdown marks the pairing as shut down before it awaits close(): whatever is delivered while close() is
+    suspended (a zeroconf update, a caller's request) must already be refused - afterwards no connector is started"""
+    def h(ex):
+        conn_state = ex.choice("connector", ["none", "running", "finished"])
+        fut_state = ex.choice("reconnect_future", ["none", "pending"])
+        c = new_conn(M, ["10.0.0.1"])
+        c._connector = None if conn_state == "none" else FakeTask(conn_state)
+        c._reconnect_future = None if fut_state == "none" else FakeFuture()
+        p = object.__new__(P.IpPairing)
+        p._shutdown, p.connection, p.description, p._accessories_state, p.id = False, c, None, None, "aa:bb"
+        seen = {}
+
+        class Suspend:
+            def __await__(self):
+                yield self
+
+        async def close():
+            seen["flag_when_close_is_awaited"] = p._shutdown
+            await Suspend()  # close() takes several loop iterations (stopping the connector, asyncio.sleep(0))
+            c.closing = True
+
+        p.close = close
+        with Patched(M, lambda t_: None) as patched:
+            coro = p.shutdown()
+            coro.send(None)  # suspended inside close()
+            p._async_description_update(None)  # the zeroconf update that lands in between
+            woken = c._reconnect_future is not None and c._reconnect_future.done()
+            try:
+                coro.send(None)
+            except StopIteration:
+                pass
+        ex.require(seen.get("flag_when_close_is_awaited") is True, "shutdown is marked before close() is awaited")
+        ex.require(not patched.tasks and not woken, "a zeroconf update that arrives while shutdown() is closing starts no connector and wakes no back-off sleep")
+        ex.require(p._shutdown is True, "after shutdown() the pairing is shut down")
+        return ex.observe([len(patched.tasks), woken])
+    return h
+
+
 # ------------------------------------------------------------------ (d) hosts
 def hosts_unit(M):
     def h(ex):
@@ -817,6 +889,12 @@ def build(tier, mutate=None):
     units.append(Unit("zeroconf-update/_async_description_update", description_update_unit(C, CP), description_update_unit(R, real_ipp), split=True,
                       bounds={"flags": "shutdown, connection.closed, closing, connected", "connector": "none / running / finished", "back-off sleep": "none / pending"},
                       regions=["after-shutdown", "open"]))
+    from . import ble_adv, c19w
+    ZC, ZR = c19w.copies_zc(ble_adv.copies(mutate), mutate), c19w.reals_zc(ble_adv.reals())
+    units.append(Unit("zeroconf-update/record-reaches-the-pairing", browser_unit(ZC), browser_unit(ZR),
+                      bounds={"route": "direct / browser / browser after a goodbye within the resolve delay", "before": "nothing / a malformed record / an earlier record"}))
+    units.append(Unit("shutdown/update-while-closing", shutdown_unit(C, CP), shutdown_unit(R, real_ipp),
+                      bounds={"connector": "none / running / finished", "back-off sleep": "none / pending", "interleaved": "one zeroconf update while close() is suspended"}))
     units.append(Unit("hosts/_get_connect_hosts", hosts_unit(C), hosts_unit(R), bounds={"hosts": 3, "exclusions": "every subset"}, regions=["all-excluded"]))
     return units
 
